@@ -677,6 +677,47 @@ pub fn props(args: &[String]) {
             }
         }
     }
+    // special item hashes through the identity hasher (0, 1, all-ones, 2^63, mixing constants and their byte-swapped twins:
+    // nohasher::NoHashHasher reads the bytes in big-endian order): the same weighted set in two orders, three variants
+    {
+        use probminhash::nohasher::NoHashHasher as IdH;
+        let mut specials: Vec<u64> = Vec::new();
+        for v in [0u64, 1, u64::MAX - 1, 1 << 63, 0x9E3779B97F4A7C15, 0xBF58476D1CE4E5B9, 0x7FFFFFFFFFFFFFFF] {
+            for w in [v, v.swap_bytes()] { if !specials.contains(&w) { specials.push(w); } }
+        }
+        for m in [2usize, 5, 16] {
+            for a in 0..specials.len() {
+                for b in 0..specials.len() {
+                    if a == b { continue; }
+                    tried += 1;
+                    let fwd: Vec<(u64, f64)> = vec![(specials[a], 1.0), (specials[b], 2.0), (12345, 0.5), (99, 3.0)];
+                    let mut bwd = fwd.clone();
+                    bwd.reverse();
+                    crate::util::tick_idx(0, json!({"m": m, "items": items_json(&fwd), "hasher": "nohasher::NoHashHasher"}));
+                    let r = catch_unwind(AssertUnwindSafe(|| {
+                        let run2 = |it: &[(u64, f64)]| { let mut s = ProbMinHash2::<u64, IdH>::new(m, INIT); for (id, w) in it { s.hash_item(*id, *w); } s.get_signature().clone() };
+                        let run3 = |it: &[(u64, f64)]| { let mut s = ProbMinHash3::<u64, IdH>::new(m, INIT); for (id, w) in it { s.hash_item(*id, w); } s.get_signature().clone() };
+                        let run3a = |it: &[(u64, f64)]| { let mut s = ProbMinHash3a::<u64, IdH>::new(m, INIT); let mut im: IndexMap<u64, f64> = IndexMap::new(); for (id, w) in it { im.insert(*id, *w); } s.hash_weigthed_idxmap(&im); s.get_signature().clone() };
+                        (run2(&fwd) != run2(&bwd), run3(&fwd) != run3(&bwd), run3a(&fwd) != run3a(&bwd), run3(&fwd) != run3a(&fwd),
+                         run2(&fwd).contains(&INIT) || run3(&fwd).contains(&INIT))
+                    }));
+                    let inp = json!({"m": m, "items": items_json(&fwd), "hasher": "nohasher::NoHashHasher"});
+                    let mut rep = |k: &str, d: String| { if !keys.contains(&k.to_string()) { keys.push(k.to_string()); found.push(json!({"key": k, "text": d, "input": inp.clone()})); } };
+                    match r {
+                        Err(_) => rep("panic-nohash", format!("a ProbMinHash sketcher with NoHashHasher panicked on the ids {:?} (m={})", fwd.iter().map(|x| x.0).collect::<Vec<_>>(), m)),
+                        Ok((o2, o3, o3a, d33a, ph)) => {
+                            let ids: Vec<u64> = fwd.iter().map(|x| x.0).collect();
+                            if o2 { rep("order-2-nohash", format!("ProbMinHash2<u64, NoHashHasher> m={}: the weighted set with ids {:?} gives different signatures in the two orders", m, ids)); }
+                            if o3 { rep("order-3-nohash", format!("ProbMinHash3<u64, NoHashHasher> m={}: the weighted set with ids {:?} gives different signatures in the two orders", m, ids)); }
+                            if o3a { rep("order-3a-nohash", format!("ProbMinHash3a<u64, NoHashHasher> m={}: the weighted set with ids {:?} gives different signatures in the two orders", m, ids)); }
+                            if d33a { rep("3-vs-3a-nohash", format!("ProbMinHash3 and ProbMinHash3a differ with NoHashHasher on the ids {:?} (m={})", ids, m)); }
+                            if ph { rep("placeholder-nohash", format!("a placeholder stays in the signature of the ids {:?} with NoHashHasher (m={}, weights 0.5 .. 3)", ids, m)); }
+                        }
+                    }
+                }
+            }
+        }
+    }
     crate::util::wd_pause();
     println!("{}", json!({"tried": tried, "found": found}));
 }
@@ -687,6 +728,17 @@ pub fn props_replay(args: &[String]) {
     let m = spec["m"].as_u64().unwrap() as usize;
     let items: Vec<(u64, f64)> = spec["items"].as_array().unwrap().iter()
         .map(|x| (x[0].as_u64().unwrap(), f64::from_bits(x[1].as_u64().unwrap()))).collect();
+    if spec["hasher"].as_str() == Some("nohasher::NoHashHasher") {
+        use probminhash::nohasher::NoHashHasher as IdH;
+        let mut bwd = items.clone();
+        bwd.reverse();
+        let run2 = |it: &[(u64, f64)]| { let mut s = ProbMinHash2::<u64, IdH>::new(m, INIT); for (id, w) in it { s.hash_item(*id, *w); } s.get_signature().clone() };
+        let run3 = |it: &[(u64, f64)]| { let mut s = ProbMinHash3::<u64, IdH>::new(m, INIT); for (id, w) in it { s.hash_item(*id, w); } s.get_signature().clone() };
+        crate::util::wd_pause();
+        println!("{}", json!({"hasher": "nohasher::NoHashHasher", "sig2_forward": run2(&items), "sig2_reversed": run2(&bwd),
+            "sig3_forward": run3(&items), "sig3_reversed": run3(&bwd)}));
+        return;
+    }
     let mut rng = SplitMix64::new(arg_u64(args, "--seed", 1));
     let bad = check_set(&mut rng, m, &items);
     crate::util::wd_pause();
